@@ -205,3 +205,29 @@ def fa1(F, R):
                 n += 1
                 R.require(arm == want, fn, "helper:%s" % c.split("::")[-1], "%s is called from the %s path" % (c.split("::")[-1], arm), fn.loc(b))
     R.require(n >= 8, None, "sites", "expected >= 8 typed sites, found %d" % n)
+
+
+@rule("NT1", ["C01", "C04", "C06"], floor=10,
+      doc="the integer newtypes are plain integers: every Add/Sub/AddAssign/SubAssign impl of BlockIdx, BlockCount and ClusterId is exactly field arithmetic (Self(self.0 op rhs.0) resp. self.0 = self.0 op rhs.0), which is what lets the formula rules (CB1, SK5, LS4, BM1) treat `a + b` on these types as integer addition; BlockCount::from_bytes is the ceiling division by 512")
+def nt1(F, R):
+    from .poly import peq, ADD, SUB
+    n = 0
+    for fn in F.fns:
+        p = fn.npath
+        if not (p.startswith("<") and " as core::ops::" in p and any(x in p.split(" as ")[0] for x in ("BlockIdx", "BlockCount", "ClusterId"))):
+            continue
+        op = p.split("::")[-1]
+        if op not in ("add", "sub", "add_assign", "sub_assign"):
+            continue
+        n += 1
+        a = ("arg", 1, "self")
+        b = ("arg", 2, "rhs")
+        want = ADD(a, b) if op.startswith("add") else SUB(a, b)
+        if op in ("add", "sub"):
+            rets = [fn.term_of_rvalue(d[3], d[1]) if d[0] == "assign" else fn.call_term(d[2], d[1]) for d in fn.defs().get(0, [])]
+            ok = len(rets) == 1 and rets[0][0] == "agg" and peq(rets[0], want)
+        else:
+            st = [fn.term_of_rvalue(s["rv"], bb) for bb, i, s in fn.stmts() if s["k"] == "Assign" and s["p"]["proj"] and s["p"]["l"] == 1]
+            ok = len(st) == 1 and peq(st[0], ADD(("place", a, ("*",)), b) if op.startswith("add") else SUB(("place", a, ("*",)), b))
+        R.require(ok, fn, "plain:" + p.split(" as ")[0].split("::")[-1] + "::" + op, "%s is not plain field arithmetic" % p, fn.loc(0))
+    R.require(n >= 10, None, "impls", "expected >= 10 arithmetic impls on the newtypes, found %d" % n)
